@@ -60,6 +60,7 @@ int main(int argc, char **argv) {
     if (ts) opts |= QLISTTBL_THREADSAFE;
     FILE *in = fopen(argv[1], "r");
     if (!in) return 2;
+    FILE *devnull = fopen("/dev/null", "w");
     vh_open(argv[2]);
     vh_install_handlers();
     vh_ledger_on = 1; vh_quarantine = 1;
@@ -175,6 +176,7 @@ int main(int argc, char **argv) {
                 if (!ok) n = 0;
             } else if (!strcmp(op, "size")) n = (long) T->size(T);
             else if (!strcmp(op, "sort")) T->sort(T);
+            else if (!strcmp(op, "debug")) ok = T->debug(T, devnull);
             else if (!strcmp(op, "clear")) T->clear(T);
             else if (!strcmp(op, "saveload")) {
                 long m0 = vh_ledger_mark();
